@@ -176,6 +176,7 @@ class Recorder:
         self.n_viol = 0
         self.samples: list[tuple[int, Any]] = []  # (rank, case)
         self.max_depth = 0
+        self._retained: list[dict] = []  # results of earlier cases whose content must stay put
         # current case
         self._case = None
         self._idx = -1
@@ -212,6 +213,53 @@ class Recorder:
     def depth(self, d: int) -> None:
         if d > self.max_depth:
             self.max_depth = d
+
+    RETAIN_CASES = 2  # a retained result is re-inspected at the end of its own case and of the next 2 cases
+    RETAIN_PER_CASE = 12
+
+    def retain(self, label: str, fn: Callable[[], Any]) -> None:
+        """History oracle: the observable content `fn()` of a result returned by the implementation must not
+        change because of LATER library calls (on this or other objects).  Re-inspected at the end of the
+        current case and of the following cases executed by this worker.  Catches pooled / cached / aliased
+        storage that a check reading each result immediately can never see."""
+        if sum(1 for e in self._retained if e["age"] == 0) >= self.RETAIN_PER_CASE:
+            return
+        self._retained.append({"label": label, "fn": fn, "dg": dg(fn()), "case": self._case, "age": 0})
+
+    auto_retain = False  # opt-in per space (Space.auto_retain): results of R.impl are retained automatically
+
+    def _auto_retain(self, what: str, val) -> None:
+        """Retain tree / table results (only for modules that never edit a result they obtained through R.impl)."""
+        try:
+            from swcgeom.core.swc import DictSWC
+        except Exception:  # noqa: BLE001
+            return
+        if isinstance(val, DictSWC):
+            self.retain(what, lambda v=val: ({k: v.get_ndata(k) for k in v.keys()}, tuple(v.comments)))
+        elif type(val).__name__ == "DataFrame":
+            self.retain(what, lambda v=val: {str(c): v[c].to_numpy() for c in v.columns})
+
+    def _recheck_retained(self) -> None:
+        keep = []
+        for e in self._retained:
+            try:
+                now = dg(e["fn"]())
+            except Exception as exc:  # noqa: BLE001
+                now = ("raised", type(exc).__name__)
+            if now != e["dg"]:
+                prior = [] if e["age"] == 0 else [jsonable(e["case"])]
+                self.fail(
+                    "retained-result-changed",
+                    f"a result returned {e['age']} case(s) earlier (case {jsonable(e['case'])!r:.300}) changed its content after later "
+                    f"library calls: {e['label']}",
+                    f"retained-result-changed:{e['label']}",
+                    prior_cases=prior,
+                )
+                continue
+            e["age"] += 1
+            if e["age"] <= self.RETAIN_CASES:
+                keep.append(e)
+        self._retained = keep
 
     def fail(self, kind: str, detail: str = "", klass: str | None = None, **extra) -> None:
         """Record a property violation for the current case.
@@ -251,7 +299,10 @@ class Recorder:
         """
         self.transitions += 1
         try:
-            return True, fn(*args, **kwargs)
+            val = fn(*args, **kwargs)
+            if self.auto_retain:
+                self._auto_retain(what, val)
+            return True, val
         except (CaseTimeout, KeyboardInterrupt):
             raise
         except BaseException as e:  # noqa: BLE001 - the implementation may raise anything
@@ -325,6 +376,7 @@ class Space:
     exhaustive = True  # set False if gen() is a capped prefix of a larger declared space
     case_timeout = 120.0  # wall-clock watchdog per case (seconds); typical cases take ms
     nontrivial_default = True  # every case counts as non-trivial unless check says otherwise
+    auto_retain = False  # re-inspect every tree/table returned through R.impl after later calls (see Recorder.retain)
 
     def gen(self) -> Iterator[Any]:
         raise NotImplementedError
@@ -333,8 +385,9 @@ class Space:
         raise NotImplementedError
 
     @staticmethod
-    def of(name, gen, check, bounds=None, exhaustive=True, case_timeout=120.0, nontrivial_default=True):
+    def of(name, gen, check, bounds=None, exhaustive=True, case_timeout=120.0, nontrivial_default=True, auto_retain=False):
         s = Space()
+        s.auto_retain = auto_retain
         s.name = name
         s.gen = gen  # type: ignore
         s.check = check  # type: ignore
@@ -351,6 +404,7 @@ def _alarm(signum, frame):
 
 def run_case(space: Space, idx: int, case, R: Recorder) -> None:
     R._begin(idx, case)
+    R.auto_retain = bool(getattr(space, "auto_retain", False))
     signal.setitimer(signal.ITIMER_REAL, space.case_timeout)
     try:
         space.check(case, R)
@@ -363,6 +417,7 @@ def run_case(space: Space, idx: int, case, R: Recorder) -> None:
         R.fail("exception:" + type(e).__name__, tb, "exception:" + type(e).__name__)
     finally:
         signal.setitimer(signal.ITIMER_REAL, 0)
+    R._recheck_retained()
     if space.nontrivial_default and not R._trivial:
         R.mark_nontrivial()
     R._end()
